@@ -688,7 +688,8 @@ func (w *World) Step() {
 		def := cname + " " + []string{"INTEGER", "TEXT", "", "REAL", "BLOB", "NUMERIC", "VARCHAR(20)", "BIGINT", "DOUBLE", "DATETIME"}[s.Draw(10, "acty")]
 		defaults := []string{"", " DEFAULT 7", " DEFAULT 'dflt'", " NOT NULL DEFAULT 0", " DEFAULT 010", " DEFAULT '12'", " DEFAULT NULL", " COLLATE RTRIM DEFAULT 'abc  '",
 			" DEFAULT ' 12 '", " DEFAULT '1e3'", " DEFAULT '12abc'", " DEFAULT '0x10'", " DEFAULT '.5'", " DEFAULT '-0'", " DEFAULT '9223372036854775808'",
-			" DEFAULT 9223372036854775807", " DEFAULT -9223372036854775808", " DEFAULT '3.0'", " DEFAULT '+5'", " DEFAULT ''", " DEFAULT '1e400'", " DEFAULT abc", " DEFAULT TRUE", " DEFAULT false", " DEFAULT '12.50'"}
+			" DEFAULT 9223372036854775807", " DEFAULT -9223372036854775808", " DEFAULT '3.0'", " DEFAULT '+5'", " DEFAULT ''", " DEFAULT '1e400'", " DEFAULT abc", " DEFAULT TRUE", " DEFAULT false", " DEFAULT '12.50'",
+			" DEFAULT tRuE", " DEFAULT falſe", " DEFAULT TRUE", " DEFAULT 'true'", " DEFAULT \"false\"", " DEFAULT truee"}
 		def += defaults[s.Draw(len(defaults), "adef")]
 		w.Begin()
 		w.Exec("ALTER TABLE " + gen.Quote(t.Name) + " ADD COLUMN " + def)
